@@ -201,6 +201,13 @@ class SqlalchemyRender:
                     raise NotImplementedError(f'Required list argument for: {op}')
 
             method = methods.get(op)
+            if op == '||':
+                # "||" binds tighter than arithmetic in some engines and looser in others:
+                #  the grouping of the statement stays explicit
+                if isinstance(t.args[0], ast.BinaryOperation) and t.args[0].op != '||':
+                    arg0 = sa.sql.elements.Grouping(arg0)
+                if isinstance(t.args[1], ast.BinaryOperation) and t.args[1].op != '||':
+                    arg1 = sa.sql.elements.Grouping(arg1)
             if op == '/':
                 # keep the division operator of the statement: sqlalchemy's own "/" is always true division
                 # (it renders "a / (b + 0.0)" or a cast), which changes the result of integer division
